@@ -20,9 +20,11 @@ if [ -x $SEED/run.sh ] || [ -f $SEED/run.sh ]; then
 fi
 ( cd $WT && git checkout -q -- testdata 2>/dev/null )
 CAUGHT=""
+BC=${BEBOPCHECK:-/verif/bin/bebopcheck}
+$BC multi $(echo $CHECKS | tr ' ' ',') --tier quick --repo $WT --verif $SV > $OUT/checks.log 2>&1
 for c in $CHECKS; do
-  ${BEBOPCHECK:-/verif/bin/bebopcheck} $c --tier quick --repo $WT --verif $SV > $OUT/$c.log 2>&1; e=$?
-  if [ $e -eq 1 ]; then CAUGHT="$CAUGHT $c"; elif [ $e -eq 2 ]; then CAUGHT="$CAUGHT $c(undecided)"; fi
+  e=$(grep "^RESULT $c " $OUT/checks.log | sed 's/.*exit=//')
+  if [ "$e" = "1" ]; then CAUGHT="$CAUGHT $c"; elif [ "$e" = "2" ]; then CAUGHT="$CAUGHT $c(undecided)"; elif [ -z "$e" ]; then CAUGHT="$CAUGHT $c(crash)"; fi
 done
 echo "$LABEL build=$B suite=$S demo_clean=$DC demo_patched=$DP caught:[$CAUGHT ]"
 git -C /repo worktree remove --force $WT
